@@ -18,6 +18,7 @@ PROFILES = [
     {"yields": True, "w": {"yield_": 9, "hook": 10, "loop": 10, "case": 10}},
     {"w": {"gcase": 6, "case": 6, "hook": 12, "foreach": 8, "if_": 9, "assign": 14}},
     {"depth": 4, "maxstmts": 3, "w": {"try_": 12, "optional": 9, "hook": 12, "loop": 9}},
+    {"depth": 3, "maxstmts": 4, "w": {"optional": 14, "try_": 12, "foreach": 8, "if_": 10, "hook": 22, "assign": 16, "case": 16, "wait": 10, "match": 12, "appendm": 4}},
 ]
 
 
@@ -121,7 +122,7 @@ def run_pool(ctx, rng, quick, pool, key_prefix, with_end=False, nwalk=None, enum
 def run(ctx: Ctx):
     rng = ctx.rng
     quick = ctx.quick
-    n_per = 12 if quick else 150
+    n_per = 16 if quick else 150
     pool = []
     gen_n = acc_n = 0
     kinds = {}
